@@ -34,6 +34,8 @@ func dnsCacheMapCall(info *types.Info, call *ast.CallExpr) (string, bool) {
 
 func runC08(c *Ctx) {
 	const K = "KEY"
+	c08ScopeByUpstreamIdentity(c, K)
+	c08FixedTtlForEveryConfiguredValue(c, "BOUNDARY")
 	n := 0
 	deleters := map[string]bool{}
 	for _, f := range c.P.FuncsIn("control") {
